@@ -10,7 +10,7 @@
     formatter [F] writes for plan [p]; [planned o d p] = the planned commands as [Scanner.emit]
     reports them (the default delimiter stays in the text). *)
 From Coq Require Import List NArith ZArith Bool String.
-From Atlas Require Import Base.Bytes Lex.LexModel Lex.ClosedModel Lex.FmtModel Lex.QuoteModel Lex.QuoteProofs Lex.ClosedNLModel Lex.ClosedProofs Lex.FmtProofs Lex.FmtGooseProofs Lex.FmtRefuted gen.Gen_ScanOpts.
+From Atlas Require Import Base.Bytes Lex.LexModel Lex.ClosedModel Lex.FmtModel Lex.QuoteModel Lex.QuoteProofs Lex.ClosedNLModel Lex.ClosedProofs Lex.FmtProofs Lex.FmtGooseProofs Lex.FmtHyp Lex.FmtRefuted gen.Gen_ScanOpts.
 Import ListNotations.
 
 (** Full statement 3 (every identifier the builder quotes is a closed token) is FALSE of the
@@ -158,23 +158,6 @@ Proof. vm_compute. split; reflexivity. Qed.
     into gen/Gen_ScanOpts.v on every run —, the default delimiter or any [delim_ok] custom delimiter
     that does not start with '-', any list of extra directive lines. *)
 
-(** unfolding equations over VARIABLES (each checked by [reflexivity] on a small term), used to
-    connect the per-format lemmas of Lex/FmtProofs.v with [roundtrip] / [planned] by rewriting,
-    without conversions between large terms *)
-Lemma read_atlas o c : read FAtlas o c = of_scan (scan o c). Proof. reflexivity. Qed.
-Lemma read_liquibase o c : read FLiquibase o c = of_scan (scan o c). Proof. reflexivity. Qed.
-Lemma read_golang o c : read FGolangMigrate o c = of_scan (Stmts c). Proof. reflexivity. Qed.
-Lemma read_flyway o c : read FFlyway o c = of_scan (Stmts c). Proof. reflexivity. Qed.
-Lemma up_atlas now p : up_content FAtlas now p = atlas_content p. Proof. reflexivity. Qed.
-Lemma up_golang now p : up_content FGolangMigrate now p = tool_up p. Proof. reflexivity. Qed.
-Lemma up_flyway now p : up_content FFlyway now p = tool_up p. Proof. reflexivity. Qed.
-Lemma up_liquibase now p : up_content FLiquibase now p = liquibase_content now p. Proof. reflexivity. Qed.
-Lemma up_dbmate now p : up_content FDBMate now p = dbmate_content p. Proof. reflexivity. Qed.
-Lemma up_goose now p : up_content FGoose now p = goose_content p. Proof. reflexivity. Qed.
-Lemma texts_of_eq r : texts_of r = texts (of_scan r). Proof. reflexivity. Qed.
-Lemma roundtrip_eq F o now p : roundtrip F o now p = texts (read F o (up_content F now p)). Proof. reflexivity. Qed.
-Lemma planned_eq o d p : planned o d p = Some (map (fun c => stmt_text o d (c_cmd c)) (p_changes p)).
-Proof. reflexivity. Qed.
 Lemma semi_eq : semi = delimiter. Proof. reflexivity. Qed.
 
 Theorem C07_driver_opts_no_go : forallb (fun o => negb (GoCommand o)) gen_scan_opts = true.
@@ -298,3 +281,20 @@ Proof.
   exists s', cs. repeat split; assumption.
 Qed.
 Print Assumptions C07_closed_statement.
+
+(** C07_roundtrip, one statement for the six formatters: [roundtrip_hyp F o now p] is the DECIDABLE
+    hypothesis (Lex/FmtHyp.v: per formatter, exactly the side conditions of the theorems above as
+    one boolean).  The extracted model and an independent Go port evaluate it on every generated
+    case (observation line "hyp"), and the oracle reports [closed-but-not-roundtrip] when a case
+    with [roundtrip_hyp = true] does not round-trip on the real code. *)
+Theorem C07_roundtrip : forall F o now p,
+  GoCommand o = false -> roundtrip_hyp F o now p = true ->
+  roundtrip F o now p = planned (reader_opts F o) (reader_delim F p) p.
+Proof. exact roundtrip_of_hyp. Qed.
+Print Assumptions C07_roundtrip.
+Example C07_roundtrip_nonvacuous :
+  forallb (fun F => roundtrip_hyp F opts_postgres (bs "20240101000000"%string) ex_tool_plan)
+          [FAtlas; FGolangMigrate; FGoose; FFlyway; FLiquibase; FDBMate] = true
+  /\ roundtrip_hyp FAtlas opts_mysql [] (ex_plan [10;10]%N) = true
+  /\ roundtrip_hyp FGoose opts_postgres [] w_goose_plan = false.
+Proof. repeat split; vm_compute; reflexivity. Qed.
